@@ -9,6 +9,7 @@ and the significant tokens are unchanged (vf.minify.align, C01's oracle), so no 
 import os
 
 from .. import progen, layout, reflex, minify
+from .. import ambient
 
 LEVEL = 'exploration'
 RULE = ('header shapes: 0, 1, 2, 3, 4 leading comments x kinds {--, //, --[[ ]], --[=[ ]=], multi-line block} x blank lines / spaces / tabs before '
@@ -104,7 +105,7 @@ def check_one(ctx, src, scopes, config, case):
                 p1 = os.path.join(tmpd, 'h.p8')
                 with open(p1, 'wb') as fh:
                     fh.write(rc.write_p8(regions, src, version=8))
-                argv = ['-q', 'luamin'] + (['--keep-names-from-file', keep_file] if config == 'cli_keep_file' else []) + [p1]
+                argv = [ambient.vflag(), 'luamin'] + (['--keep-names-from-file', keep_file] if config == 'cli_keep_file' else []) + [p1]
                 if tool.main(argv):
                     raise RuntimeError('p8tool luamin failed')
                 out = rc.read_p8(open(os.path.join(tmpd, 'h_fmt.p8'), 'rb').read())['code']
